@@ -65,6 +65,9 @@ pub fn lists_and_ss() -> Vec<(Unifiable, SS)> {
     v.push((var(5, "$M"), mk(&[(5, mk_list(&[atom("a"), mk_list(&[atom("b"), atom("c")], None)], None))])));
     v.push((var(5, "$M"), mk(&[(5, mk_list(&[atom("a"), empty()], None))])));
     v.push((var(6, "$E"), mk(&[(6, empty())])));
+    // variable bound THROUGH another variable to a list ($X = $Y after $Y = [a, b]) and to an atom
+    v.push((var(7, "$P"), mk(&[(7, var(8, "$Q")), (8, mk_list(&[atom("a"), atom("b")], None))])));
+    v.push((var(7, "$P"), mk(&[(7, var(8, "$Q")), (8, atom("z"))])));
     v
 }
 
